@@ -109,6 +109,37 @@ PROPS = {
         assumptions=['intermediate_tuple / enc_into / table look-ups are external_body here: deterministic functions of their arguments (their values are decided under C15/C04)',
                      'Verus/Z3 sound'],
         not_decided=['ordering of Encoder::get_encoded_packets and source_packets (iterator chains; bounded Kani unit K-PKTS planned)', 'plan interchangeability rests on generate() being deterministic (C17 assumption)']),
+    'C01': dict(
+        level='proof', units=[('V', 'V-DEC', 'v_dec'), ('V', 'V-UNPACK', 'v_unpack'), ('V', 'V-BLOCKS', 'v_blocks')],
+        explanation='everything around the solver, for all inputs: the block decoder state is an exact record of the distinct packets received (INV); its answer is answer_spec(state): None below K distinct symbols, '
+                    'the un-interleaved source symbols when all K arrived (no solver involved: always answers), otherwise the block assembled from the solver result for exactly the ISI list and D vector RFC 6330 prescribes; '
+                    'the object decoder memoises block answers, concatenates them in block order and truncates to F (never longer); un-interleaving writes exactly the RFC layout positions (V-UNPACK); '
+                    'block cutting on the encoder side is V-BLOCKS',
+        assumptions=[SOLVER_ASSUMED, 'packets come from the encoder of this object: block number < Z, payload of exactly T bytes, 24-bit ESI (preconditions)',
+                     'rebuild_source_symbol_into (closure capturing &mut) external: writes Enc[K\', C, Tuple[K\', i]]', 'encoder-side create_symbols / Encoder::new (iterator chains) not under contract: see C05'],
+        not_decided=['that the solver returns the unique solution (pi_solver.rs is outside contract reach): soundness of the final bytes rests on the assumed solver contract',
+                     'encoder-side symbol creation (sub-block interleaving) and intermediate-symbol generation']),
+    'C02': dict(
+        level='proof', units=[('V', 'V-DEC', 'v_dec')],
+        explanation='the decoder-level half of the property, for all states: the case analysis of SourceBlockDecoder::decode (too few / all source / solve), the ISI list and D vector handed to the solver, '
+                    'the GF(2)-only attempt exactly when S + |isis| >= L, its Some returned, and on None ALWAYS the standard solve (never gives up through the fast path); the answer is a function of the received state alone '
+                    '(the `decoded` flag is write-only), so it is re-evaluated on the full accumulated set at every call',
+        assumptions=[SOLVER_ASSUMED],
+        not_decided=['rank exactness of the solver (Some iff the constraint matrix has full rank over GF(256)): NOT decided by this check; it is the assumed solver contract',
+                     'that generate_constraint_matrix builds the RFC matrix for the given ISI list']),
+    'C08': dict(
+        level='proof', units=[('V', 'V-DEC', 'v_dec')],
+        explanation='duplicate suppression (a packet whose ESI was seen changes nothing), packets with different ESIs commute up to the arrival order of repair packets (multiset equal), idempotence; '
+                    'object decoder: a block answer is memoised and never changes, later packets for it are ignored, every later call returns result_spec(blocks); decode and add_new_packet+get_result share one '
+                    'state-transition predicate and one result function (interface agreement); all for every state and packet',
+        assumptions=[SOLVER_ASSUMED + ' -- in particular the final answer is independent of the ORDER of repair rows only if the solver is exact', 'derive(Clone) is a structural copy (std)'],
+        not_decided=['order independence of the solver result under permutation of repair rows (solver contract)']),
+    'C05': dict(
+        level='proof', units=[('V', 'V-PART', 'v_part'), ('V', 'V-BLOCKS', 'v_blocks'), ('V', 'V-UNPACK', 'v_unpack'), ('V', 'V-DEC', 'v_dec')],
+        explanation='Partition[I,J] characterised over integers (generic function, all inputs); calculate_block_offsets returns Z contiguous blocks, ZL of KL*T then ZS of KS*T bytes covering exactly Kt*T >= F with less than one symbol of padding; '
+                    'Decoder::new creates Z block decoders numbered 0..Z-1 with KL/KS symbols and the configured T, N, Al; unpack_sub_blocks writes symbol idx to the positions of the RFC 4.4.1.2 layout for all T, Al, N, K',
+        assumptions=['valid configuration additionally has T >= 1, Z >= 1, 1 <= N <= T/Al (RFC 4.4.1.2)', 'Verus/Z3 sound'],
+        not_decided=['encoder side create_symbols (sub-block interleaving) and Encoder::new (zero padding, block numbers, source ESIs): iterator chains outside the extraction rules; bounded Kani unit K-LAYOUT planned']),
     'C10': dict(
         level='proof', units=[('K', 'K-GF', None)],
         explanation='all harnesses loop-free over full u8 domains (spec loop of 8 steps fully unwound with unwinding assertions): complete',
